@@ -302,7 +302,7 @@ class Printer:
         if k == 'gosub':
             return 'gosub ' + s['label']
         if k == 'return':
-            return 'return'
+            return 'return' + (' ' + s['label'] if s.get('label') else '')
         if k == 'call':
             args = ', '.join(pe(a) for a in s['args'])
             if s.get('style') == 'call':
